@@ -35,6 +35,23 @@ def _dtype_for(a, dtype):
     return np.asarray(a).astype(dtype)
 
 
+def tie_risk(pred, ref) -> int:
+    """size of the largest class of candidate pairs with identical (|R|, |P|, |R n P|): an upper bound of the
+    number of mutually tied candidates the specification has to branch over (2^k states).  Inputs beyond
+    TIE_LIMIT are not handed to TLC (counted as skipped) - a statement about what is explored, not a verdict."""
+    pred, ref = np.asarray(pred), np.asarray(ref)
+    both = (pred != 0) & (ref != 0)
+    if not both.any():
+        return 0
+    pairs, counts = np.unique(np.stack([ref[both].astype(np.int64), pred[both].astype(np.int64)], axis=1), axis=0, return_counts=True)
+    rs = dict(zip(*np.unique(ref[ref != 0], return_counts=True)))
+    ps = dict(zip(*np.unique(pred[pred != 0], return_counts=True)))
+    from collections import Counter
+    c = Counter((int(rs[a]), int(ps[b]), int(n)) for (a, b), n in zip(pairs, counts))
+    return max(c.values())
+
+
+TIE_LIMIT = 18
 LAYOUTS = ("C", "F", "T-view", "negstride", "strided")
 
 
@@ -61,7 +78,7 @@ def rec_match(pred, ref, kind: str, mm: str, thr, chain=(), dtype=np.uint8, meta
     rec = {"shape": shape_of(ref), "matcher": kind, "mm": mm, "thr": list(thr), "out": "ok",
            "mp": [], "mr": [], "chain": [], "meta": dict(meta or {})}
     rec["meta"].update({"dtype": str(np.dtype(dtype)), "raw_pred": pred.ravel().tolist(),
-                        "raw_ref": ref.ravel().tolist(), "layout": layout})
+                        "raw_ref": ref.ravel().tolist(), "layout": layout, "tie_risk": tie_risk(pred, ref)})
     outs = []
     try:
         with quiet(), mem_limit():
@@ -234,7 +251,7 @@ def rec_evaluate(pred, ref, cfg: dict, dtype=np.uint8, meta=None, evaluator=None
            "res": None, "glabels": [rmap[int(x)] for x in glabels], "gall": [rmap[int(x)] for x in gall], "gkind": gkind,
            "rel": "none", "outb": "ok", "resb": EMPTY_RES, "meta": dict(meta or {})}
     rec["meta"].update({"dtype": str(np.dtype(dtype)), "raw_pred": pred.ravel().tolist(),
-                        "raw_ref": ref.ravel().tolist()})
+                        "raw_ref": ref.ravel().tolist(), "tie_risk": 0 if cfg["input"] == "MAT" else tie_risk(pred, ref)})
     out, res_rec, exc = run_evaluate(pred, ref, cfg, evaluator=evaluator, group=group, transform=transform)
     rec["out"] = out
     rec["res"] = res_rec
